@@ -5,6 +5,21 @@ CLAIMS = {
      design_ref="§5 C18", engine="retryopts",
      note="Trusted: Coq kernel, the hand-written model of src/runner/basic.rs:142-195,762-766 (validated, not verified), the harness and orchestrator; humantime::parse_duration is an oracle; K18a (prefix-only tags such as @retrying) excluded by hypothesis and reported as KNOWN-FINDING.",
      technique="Coq theorem (model = spec) + differential correspondence check of model vs code"),
+ "C01": dict(
+     text="Partial (being extended): the verdict of Summarize over ANY event list is proved to be exactly `a parser error, a final step failure or a final hook failure occurred` outside known-finding class K01a (with a refutation witness for the class); the whole family of built-in statistics pipelines (Summarize<Normalize<..>>, Libtest raw/normalized, Tee, Or, under FailOnSkipped / Repeat) is modelled (Pipeline.v) and tied to the REAL writers by comparing the six getters and execution_has_failed after every call, and the final verdict is judged against the declarative specification; the lift of the theorem to every pipeline is not yet proved.",
+     design_ref="§5 C01", engine="combinators",
+     note="Trusted: Coq kernel, hand-written models (Stats.v, Normalize.v, Combinators.v, Pipeline.v) validated by the differential check, harness, orchestrator. Streams obey the Runner contract, are retry-consistent and carry one ParsingFinished. K01a (hook failing in a retried attempt) excluded by hypothesis and reported as KNOWN-FINDING. run_and_exit's panic is by inspection of src/cucumber.rs:1208.",
+     technique="Coq theorem (Summarize verdict = spec) + differential correspondence check of pipeline model vs code + Coq-defined monitor"),
+ "C11": dict(
+     text="Partial (being extended): the nested-FIFO model of writer::Normalize is tied to the REAL Normalize after every handle_event call on contract-abiding linearisations (sequential, runner-like and wild), and an independent Coq-defined monitor checks the property text on the real outputs (lossless multiset, sequential recogniser, per-attempt order, pass-through at once, head-live, identity on sequential input); proved so far: pass-through events are forwarded first in the same call, everything is passed through after Finished; the lossless/sequential theorems are in progress.",
+     design_ref="§5 C11", engine="combinators",
+     note="Trusted: Coq kernel, hand-written model of src/writer/normalize.rs and the contract automaton Contract.v (validated by the differential check), harness, orchestrator. Inputs obey the Runner contract (the real Normalize panics otherwise).",
+     technique="Coq model + theorems + differential correspondence check + Coq-defined monitor"),
+ "C12": dict(
+     text="Partial: for EVERY event list the eight stateless counters of the Summarize model (features, rules, passed/skipped/failed/retried steps, parsing errors, hook errors) are proved equal to the numbers of matching events before run-Finished, replayed events are proved inert, and the summary is proved to be written exactly once, right after run-Finished; the four scenario counters are judged on every run against a declarative per-scenario specification (StatsSpec.spec_counts) outside the known-finding classes K12a-K12d, but that equality is not yet a theorem. The model is tied to the REAL Summarize (alone, over Normalize, under FailOnSkipped / Repeat) after every call, including the parsed summary text.",
+     design_ref="§5 C12", engine="combinators",
+     note="Trusted: Coq kernel, hand-written model of src/writer/summarize.rs:163-445 (validated by the differential check), summary-text parser in lib/statspipe.py, harness, orchestrator. Step structural equality = id equality. K12a-K12d excluded by hypothesis and reported as KNOWN-FINDING.",
+     technique="Coq theorems (stateless counters, replay inertness, write-once) + differential correspondence check + Coq-defined monitor for scenario counters"),
  "C13": dict(
      text="Full: the Gallina transcription of FailOnSkipped, Repeat, Tee, Or, discard::Arbitrary and discard::Stats as one pipeline grammar over recording leaves is proved transparent for arbitrary (not only contract-abiding) event lists and arbitrary nestings: FailOnSkipped rewrites exactly the Skipped step/background events of selected scenarios in place, Repeat forwards everything at once and re-delivers the selected events once, in order, right after Finished, Tee delivers everything to both sides, Or each event to exactly one side, Stats combine by max / sum; tied to the code by running the real wrappers around recording leaves and comparing deliveries after every handle_event call.",
      design_ref="§5 C13", engine="combinators",
@@ -27,7 +42,7 @@ CLAIMS = {
      technique="Coq theorems about the model + differential correspondence check"),
 }
 ENGINES = {
- "combinators": ("/verif/harness/src/engines/combinators.rs", "differential correspondence: real FailOnSkipped/Repeat/Tee/Or/discard nestings around recording leaves vs Gallina model, per handle_event call"),
+ "combinators": ("/verif/harness/src/engines/combinators.rs", "differential correspondence: dynamically assembled REAL writer pipelines (FailOnSkipped/Repeat/Tee/Or/discard/Normalize/Summarize/Libtest around recording leaves) vs Gallina models, per handle_event call"),
  "filter": ("/verif/harness/src/engines/filter.rs", "differential correspondence: real Cucumber::filter_run (vector parser, recording Runner) vs Gallina model"),
  "outline": ("/verif/harness/src/engines/outline.rs", "differential correspondence: real Feature::expand_examples (hand-built, scanner probes, parsed texts) vs Gallina model"),
  "stepmatch": ("/verif/harness/src/engines/stepmatch.rs", "differential correspondence: real step::Collection::find under two registration orders vs Gallina model"),
